@@ -102,9 +102,17 @@ func (g tg) bounded(size int) string {
 				w = g.pick(multiWords)
 			}
 		}
+		quoted := g.r.Intn(12) == 0
+		if quoted {
+			sb.WriteString([]string{"\"", "(", "'", "[", "“"}[g.r.Intn(5)])
+		}
 		sb.WriteString(w)
 		if g.r.Intn(9) == 0 {
 			sb.WriteString([]string{".", "!", "?", ".", ","}[g.r.Intn(5)])
+			// a sentence that ends inside quotes or brackets: He said "stop." (Really?) …
+			if quoted || g.r.Intn(3) == 0 {
+				sb.WriteString([]string{"\"", ")", "'", "]", "”", "’", "\")", ")\""}[g.r.Intn(8)])
+			}
 		}
 	}
 	return sb.String()
